@@ -1,10 +1,510 @@
-(* C06 — index operations track NumPy on the dense array, over any history.  (growing; see the final header) *)
+(* C06 - index operations track NumPy on the dense array, over any history.
+
+   Models: IIndex/Model.v (iindex = association list {(value, higher coords) -> row ids} + common + shape;
+   [dense idx r hc] = the cell (r, hc) of the array the index stands for), IIndex/OpsA.v, OpsB.v (one function
+   per operation, mirroring the algorithm of src/catii/iindexes.py), IIndex/Step.v ([op], [step], [run]).
+   NumPy side: a dense array is [darr] = extents + cell function; [refines idx d] = same extents and the same
+   cell in range.  The per-operation theorems state shape and dense content of the result (pointwise, in range);
+   [C06_step_refines] / [C06_history_refines] collect them over the operation type and over arbitrary finite
+   histories (induction over [run]).  [spec_step c d o] (IIndex/HistorySpec.v) is NumPy's effect of operation o
+   on the array d; its parameter c (the receiver's common value) is consulted only where the operation's meaning
+   on the array mentions it (intersection/difference_update, set_if, the default mapping of reindexed());
+   for histories of the other operations the NumPy side is a plain fold ([C06_history_refines_fold]).
+   Argument conditions ([args_ok], per operation; boolean twins in IIndex/ArgsOkB.v):
+     append: operand well-formed, same higher shape, at most 2^32 rows in total;
+     update: keys distinct, coordinates in shape, row ids increasing and in range, no cell assigned two values;
+     union_update: the operand's entries do not contradict the receiver's (a well-formed result exists);
+     intersection/difference_update: distinct keys;   filtered: mask of the receiver's length;
+     sliced: one order per higher axis, ints and lists of DISTINCT columns within the extent;
+     collapsed: 2-D receiver, non-empty precedence list of DISTINCT values within a NumPy integer dtype;
+     column_stack: every input well-formed, 1-D or 2-D, same row count;   all others: none.
+   "Operands other than the receiver are unchanged" and "copies share no storage" are facts about the heap and
+   are covered by C17 and the harness (the model is functional).
+   Proofs: IIndex/ShiftCommon.v, OpsAProofs_*.v, OpsBProofs_*.v, History.v.  Tie to the code: harness/props/c06.py
+   + IIndex/Check.v (stepwise simulation). *)
 From Coq Require Import ZArith List Bool.
-From Catii Require Import Base.Sorted IIndex.Model IIndex.ModelFacts IIndex.OpsA IIndex.ShiftCommon.
+From Catii Require Import Base.Sorted IIndex.Res IIndex.Model IIndex.ModelFacts IIndex.OpsA IIndex.OpsB IIndex.Step
+  IIndex.ShiftCommon IIndex.OpsAProofs_Observers IIndex.OpsAProofs_Append IIndex.OpsAProofs_Filtered
+  IIndex.OpsAProofs_FilteredAuto IIndex.OpsAProofs_Update IIndex.OpsAProofs_SetIf IIndex.ArgsOkB
+  IIndex.OpsBProofs_reindexed IIndex.OpsBProofs_sliced IIndex.OpsBProofs_stack IIndex.OpsBProofs_collapsed
+  IIndex.HistorySpec IIndex.History IIndex.HistoryB.
 Import ListNotations.
 Open Scope Z_scope.
 
-Theorem C06_shift_common_dense idx v r hc : WF idx -> in_range idx r hc ->
+(* ---- shift_common(v), shift_common(): changing the common value changes nothing ---- *)
+Theorem C06_shift_common_shape idx v :
+  nrows (shift_common idx v) = nrows idx /\ hshape (shift_common idx v) = hshape idx.
+Proof. exact (shift_common_shape idx v). Qed.
+Print Assumptions C06_shift_common_shape.
+
+Theorem C06_shift_common_common idx v :
+  common (shift_common idx v) = v.
+Proof. exact (shift_common_common idx v). Qed.
+Print Assumptions C06_shift_common_common.
+
+Theorem C06_shift_common_dense idx v r hc :
+  WF idx -> in_range idx r hc ->
   dense (shift_common idx v) r hc = dense idx r hc.
 Proof. exact (shift_common_dense idx v r hc). Qed.
 Print Assumptions C06_shift_common_dense.
+
+Theorem C06_shift_common_auto_shape idx :
+  nrows (shift_common_auto idx) = nrows idx /\ hshape (shift_common_auto idx) = hshape idx.
+Proof. exact (shift_common_auto_shape idx). Qed.
+Print Assumptions C06_shift_common_auto_shape.
+
+Theorem C06_shift_common_auto_dense idx r hc :
+  WF idx -> in_range idx r hc ->
+  dense (shift_common_auto idx) r hc = dense idx r hc.
+Proof. exact (shift_common_auto_dense idx r hc). Qed.
+Print Assumptions C06_shift_common_auto_dense.
+
+(* ---- copy ---- *)
+Theorem C06_copy_same idx :
+  nrows (copy idx) = nrows idx /\ hshape (copy idx) = hshape idx /\ common (copy idx) = common idx.
+Proof. exact (copy_same idx). Qed.
+Print Assumptions C06_copy_same.
+
+Theorem C06_copy_dense idx r hc :
+  dense (copy idx) r hc = dense idx r hc.
+Proof. exact (copy_dense idx r hc). Qed.
+Print Assumptions C06_copy_dense.
+
+(* ---- append = numpy.concatenate ---- *)
+Theorem C06_append_shape idx other :
+  nrows (append idx other) = nrows idx + nrows other /\ hshape (append idx other) = hshape idx.
+Proof. exact (append_shape idx other). Qed.
+Print Assumptions C06_append_shape.
+
+Theorem C06_append_dense idx other r hc :
+  WF idx -> WF other -> append_ok idx other ->
+  0 <= r < nrows idx + nrows other -> in_hshape hc (hshape idx) ->
+  dense (append idx other) r hc = if r <? nrows idx then dense idx r hc else dense other (r - nrows idx) hc.
+Proof. exact (append_dense idx other r hc). Qed.
+Print Assumptions C06_append_dense.
+
+Theorem C06_append_refines idx other d e :
+  WF idx -> WF other -> append_ok idx other ->
+  refines idx d -> refines other e -> refines (append idx other) (spec_append d e).
+Proof. exact (append_refines idx other d e). Qed.
+Print Assumptions C06_append_refines.
+
+(* ---- filtered = a[mask] ---- *)
+Theorem C06_filtered_shape idx mask :
+  filtered_ok idx mask ->
+  nrows (filtered idx mask) = lenZ (kept_rows mask) /\ hshape (filtered idx mask) = hshape idx.
+Proof. exact (filtered_shape idx mask). Qed.
+Print Assumptions C06_filtered_shape.
+
+Theorem C06_filtered_dense idx mask r hc :
+  WF idx -> filtered_ok idx mask ->
+  0 <= r < lenZ (kept_rows mask) -> in_hshape hc (hshape idx) ->
+  dense (filtered idx mask) r hc = dense idx (nth (Z.to_nat r) (kept_rows mask) 0) hc.
+Proof. exact (filtered_dense idx mask r hc). Qed.
+Print Assumptions C06_filtered_dense.
+
+Theorem C06_filtered_refines idx mask d :
+  WF idx -> filtered_ok idx mask -> refines idx d ->
+  refines (filtered idx mask) (spec_filtered d mask).
+Proof. exact (filtered_refines idx mask d). Qed.
+Print Assumptions C06_filtered_refines.
+
+(* ---- update = a[rowids, col] = value ---- *)
+Theorem C06_update_shape idx upd :
+  nrows (update idx upd) = nrows idx /\ hshape (update idx upd) = hshape idx /\ common (update idx upd) = common idx.
+Proof. exact (update_shape idx upd). Qed.
+Print Assumptions C06_update_shape.
+
+Theorem C06_update_dense idx upd r hc :
+  WF idx -> upd_ok idx upd -> in_range idx r hc ->
+  dense (update idx upd) r hc =
+  match find (covers r hc) upd with Some e => fst (fst e) | None => dense idx r hc end.
+Proof. exact (update_dense idx upd r hc). Qed.
+Print Assumptions C06_update_dense.
+
+Theorem C06_update_refines idx upd d :
+  WF idx -> upd_ok idx upd ->
+  refines idx d -> refines (update idx upd) (spec_update d upd).
+Proof. exact (update_refines idx upd d). Qed.
+Print Assumptions C06_update_refines.
+
+Theorem C06_listed_update idx upd r hc v :
+  NoDup (keys (entries idx)) -> NoDup (keys upd) ->
+  (listed (update idx upd) r hc v <->
+   (listed idx r hc v /\ in_cells upd r hc = false) \/ (listed_in upd r hc v /\ v <> common idx)).
+Proof. exact (listed_update idx upd r hc v). Qed.
+Print Assumptions C06_listed_update.
+
+(* ---- union / intersection / difference_update: entry-wise set algebra, and its effect on the array ---- *)
+Theorem C06_set_update_shape idx other :
+  (nrows (union_update idx other) = nrows idx /\ hshape (union_update idx other) = hshape idx /\ common (union_update idx other) = common idx) /\
+  (nrows (intersection_update idx other) = nrows idx /\ hshape (intersection_update idx other) = hshape idx /\ common (intersection_update idx other) = common idx) /\
+  (nrows (difference_update idx other) = nrows idx /\ hshape (difference_update idx other) = hshape idx /\ common (difference_update idx other) = common idx).
+Proof. exact (set_update_shape idx other). Qed.
+Print Assumptions C06_set_update_shape.
+
+Theorem C06_listed_union_update idx other r hc v :
+  NoDup (keys (entries idx)) -> NoDup (keys other) ->
+  (listed (union_update idx other) r hc v <-> listed idx r hc v \/ listed_in other r hc v).
+Proof. exact (listed_union_update idx other r hc v). Qed.
+Print Assumptions C06_listed_union_update.
+
+Theorem C06_listed_intersection_update idx other r hc v :
+  NoDup (keys (entries idx)) -> NoDup (keys other) ->
+  (listed (intersection_update idx other) r hc v <-> listed idx r hc v /\ listed_in other r hc v).
+Proof. exact (listed_intersection_update idx other r hc v). Qed.
+Print Assumptions C06_listed_intersection_update.
+
+Theorem C06_listed_difference_update idx other r hc v :
+  NoDup (keys (entries idx)) -> NoDup (keys other) ->
+  (listed (difference_update idx other) r hc v <-> listed idx r hc v /\ ~ listed_in other r hc v).
+Proof. exact (listed_difference_update idx other r hc v). Qed.
+Print Assumptions C06_listed_difference_update.
+
+Theorem C06_union_update_dense idx other r hc :
+  WF idx -> other_ok idx other ->
+  dense (union_update idx other) r hc =
+  match find (covers r hc) other with Some e => fst (fst e) | None => dense idx r hc end.
+Proof. exact (union_update_dense idx other r hc). Qed.
+Print Assumptions C06_union_update_dense.
+
+Theorem C06_intersection_update_dense idx other r hc :
+  WF idx -> NoDup (keys other) ->
+  dense (intersection_update idx other) r hc =
+  if memZ r (rows_at (dense idx r hc, hc) other) then dense idx r hc else common idx.
+Proof. exact (intersection_update_dense idx other r hc). Qed.
+Print Assumptions C06_intersection_update_dense.
+
+Theorem C06_difference_update_dense idx other r hc :
+  WF idx -> NoDup (keys other) ->
+  dense (difference_update idx other) r hc =
+  if memZ r (rows_at (dense idx r hc, hc) other) then common idx else dense idx r hc.
+Proof. exact (difference_update_dense idx other r hc). Qed.
+Print Assumptions C06_difference_update_dense.
+
+(* ---- set_if ---- *)
+Theorem C06_set_if_shape idx k v :
+  nrows (set_if idx k v) = nrows idx /\ hshape (set_if idx k v) = hshape idx /\ common (set_if idx k v) = common idx.
+Proof. exact (set_if_shape idx k v). Qed.
+Print Assumptions C06_set_if_shape.
+
+Theorem C06_listed_set_if idx k v r hc u :
+  NoDup (keys (entries idx)) ->
+  (listed (set_if idx k v) r hc u <-> if key_eqb (u, hc) k then In r v else listed idx r hc u).
+Proof. exact (listed_set_if idx k v r hc u). Qed.
+Print Assumptions C06_listed_set_if.
+
+Theorem C06_set_if_dense idx k v r hc :
+  WF idx -> set_if_ok idx k v ->
+  dense (set_if idx k v) r hc =
+  if zl_eqb hc (snd k)
+  then (if memZ r v then fst k else if dense idx r hc =? fst k then common idx else dense idx r hc)
+  else dense idx r hc.
+Proof. exact (set_if_dense idx k v r hc). Qed.
+Print Assumptions C06_set_if_dense.
+
+(* ---- reindexed = element-wise value mapping; the default mapping sends the k-th smallest listed value to k-1 and leaves the common value ---- *)
+Theorem C06_reindexed_shape idx m sh :
+  nrows (reindexed idx m sh) = nrows idx /\ hshape (reindexed idx m sh) = hshape idx.
+Proof. exact (reindexed_shape idx m sh). Qed.
+Print Assumptions C06_reindexed_shape.
+
+Theorem C06_reindexed_dense idx m sh r hc :
+  WF idx -> in_range idx r hc ->
+  dense (reindexed idx m sh) r hc = reindex_fun idx m (dense idx r hc).
+Proof. exact (reindexed_dense idx m sh r hc). Qed.
+Print Assumptions C06_reindexed_dense.
+
+Theorem C06_reindexed_noshift_common idx m :
+  common (reindexed idx m false) = reindex_fun idx m (common idx).
+Proof. exact (reindexed_noshift_common idx m). Qed.
+Print Assumptions C06_reindexed_noshift_common.
+
+Theorem C06_reindex_fun_explicit idx m v :
+  reindex_fun idx (Some m) v = map_get m v.
+Proof. exact (reindex_fun_explicit idx m v). Qed.
+Print Assumptions C06_reindex_fun_explicit.
+
+Theorem C06_default_fun_rank idx k :
+  (k < length (listed_values idx))%nat ->
+  reindex_fun idx None (nth k (listed_values idx) 0) = Z.of_nat k.
+Proof. exact (default_fun_rank idx k). Qed.
+Print Assumptions C06_default_fun_rank.
+
+Theorem C06_default_fun_other idx v :
+  ~ In v (listed_values idx) -> reindex_fun idx None v = v.
+Proof. exact (default_fun_other idx v). Qed.
+Print Assumptions C06_default_fun_other.
+
+Theorem C06_default_fun_common idx :
+  WF idx -> reindex_fun idx None (common idx) = common idx.
+Proof. exact (default_fun_common idx). Qed.
+Print Assumptions C06_default_fun_common.
+
+(* ---- sliced = column selection in the requested order; slices1d = every column slice labelled with its own higher coordinates ---- *)
+Theorem C06_sliced_shape idx orders out :
+  orders_ok orders (hshape idx) -> sliced idx orders = Ok out ->
+  nrows out = nrows idx /\ hshape out = slice_shape orders (hshape idx) /\ common out = common idx.
+Proof. exact (sliced_shape idx orders out). Qed.
+Print Assumptions C06_sliced_shape.
+
+Theorem C06_sliced_dense idx orders out r hc' :
+  WF idx -> orders_ok orders (hshape idx) ->
+  sliced idx orders = Ok out -> in_range out r hc' ->
+  dense out r hc' = dense idx r (unslice orders hc').
+Proof. exact (sliced_dense idx orders out r hc'). Qed.
+Print Assumptions C06_sliced_dense.
+
+Theorem C06_sliced_unslice_in_range idx orders out r hc' :
+  orders_ok orders (hshape idx) ->
+  sliced idx orders = Ok out -> in_range out r hc' -> in_range idx r (unslice orders hc').
+Proof. exact (sliced_unslice_in_range idx orders out r hc'). Qed.
+Print Assumptions C06_sliced_unslice_in_range.
+
+Theorem C06_sliced_too_many idx orders :
+  (length (hshape idx) < length orders)%nat -> sliced idx orders = Err ETypeError.
+Proof. exact (sliced_too_many idx orders). Qed.
+Print Assumptions C06_sliced_too_many.
+
+Theorem C06_slices1d_spec idx :
+  WF idx ->
+  NoDup (map fst (slices1d idx))
+  /\ (forall hc, In hc (map fst (slices1d idx)) <-> in_hshape hc (hshape idx))
+  /\ (forall lbl s, In (lbl, s) (slices1d idx) -> slice_of idx lbl s).
+Proof. exact (slices1d_spec idx). Qed.
+Print Assumptions C06_slices1d_spec.
+
+(* ---- column_stack = numpy.column_stack ---- *)
+Theorem C06_column_stack_total idxs nc0 :
+  cs_args_ok idxs -> exists out, column_stack idxs nc0 = Ok out.
+Proof. exact (column_stack_total idxs nc0). Qed.
+Print Assumptions C06_column_stack_total.
+
+Theorem C06_column_stack_shape idxs nc0 out :
+  cs_args_ok idxs -> column_stack idxs nc0 = Ok out ->
+  nrows out = nrows (hd out idxs) /\ hshape out = [cs_off idxs] /\ (forall c, nc0 = Some c -> common out = c).
+Proof. exact (column_stack_shape idxs nc0 out). Qed.
+Print Assumptions C06_column_stack_shape.
+
+Theorem C06_column_stack_dense idxs nc0 out :
+  cs_args_ok idxs -> column_stack idxs nc0 = Ok out ->
+  forall p1 ii p2, idxs = p1 ++ ii :: p2 -> forall r c, 0 <= r < nrows out -> 0 <= c < cs_width ii ->
+    dense out r [cs_off p1 + c] = dense ii r (cs_col ii c).
+Proof. exact (column_stack_dense idxs nc0 out). Qed.
+Print Assumptions C06_column_stack_dense.
+
+Theorem C06_column_stack_cover idxs :
+  Forall (fun x => 0 <= cs_width x) idxs -> forall c, 0 <= c < cs_off idxs ->
+  exists p1 ii p2 c0, idxs = p1 ++ ii :: p2 /\ 0 <= c0 < cs_width ii /\ c = cs_off p1 + c0.
+Proof. exact (column_stack_cover idxs). Qed.
+Print Assumptions C06_column_stack_cover.
+
+Theorem C06_column_stack_empty nc0 :
+  column_stack [] nc0 = Err EIndexError.
+Proof. exact (column_stack_empty nc0). Qed.
+Print Assumptions C06_column_stack_empty.
+
+Theorem C06_column_stack_rows_differ i0 rest nc0 :
+  (exists ii, In ii (i0 :: rest) /\ nrows ii <> nrows i0) -> column_stack (i0 :: rest) nc0 = Err EValueError.
+Proof. exact (column_stack_rows_differ i0 rest nc0). Qed.
+Print Assumptions C06_column_stack_rows_differ.
+
+(* ---- collapsed: each row obtains the first listed value present in it, else the last listed ---- *)
+Theorem C06_collapsed_total idx prec m :
+  WF idx -> collapse_ok idx prec -> exists out, collapsed idx prec m = Ok out.
+Proof. exact (collapsed_total idx prec m). Qed.
+Print Assumptions C06_collapsed_total.
+
+Theorem C06_collapsed_shape idx prec m out :
+  WF idx -> collapse_ok idx prec -> collapsed idx prec m = Ok out ->
+  nrows out = nrows idx /\ hshape out = [].
+Proof. exact (collapsed_shape idx prec m out). Qed.
+Print Assumptions C06_collapsed_shape.
+
+Theorem C06_collapsed_dense idx prec m out r :
+  WF idx -> collapse_ok idx prec -> collapsed idx prec m = Ok out ->
+  0 <= r < nrows idx -> dense out r [] = spec_collapse prec (row_vals idx (map_fun m) r).
+Proof. exact (collapsed_dense idx prec m out r). Qed.
+Print Assumptions C06_collapsed_dense.
+
+Theorem C06_collapsed_1d idx prec m :
+  hshape idx = [] -> collapsed idx prec m = Err ETypeError.
+Proof. exact (collapsed_1d idx prec m). Qed.
+Print Assumptions C06_collapsed_1d.
+
+Theorem C06_spec_collapse_first prec vals p :
+  spec_collapse prec vals = p ->
+  (In p prec /\ In p vals /\ forall pre post, prec = pre ++ p :: post -> ~ In p pre -> forall q, In q pre -> ~ In q vals)
+  \/ (p = last prec 0 /\ forall q, In q prec -> ~ In q vals).
+Proof. exact (spec_collapse_first prec vals p). Qed.
+Print Assumptions C06_spec_collapse_first.
+
+(* ---- observers: get / items / to_dict (force=True), common_rowids ---- *)
+Theorem C06_get_force_spec idx v hc r :
+  WF idx -> in_hshape hc (hshape idx) ->
+  (In r (opt_rows (get_force idx (v, hc))) <-> 0 <= r < nrows idx /\ dense idx r hc = v).
+Proof. exact (get_force_spec idx v hc r). Qed.
+Print Assumptions C06_get_force_spec.
+
+Theorem C06_get_force_filter idx v hc :
+  WF idx -> in_hshape hc (hshape idx) ->
+  opt_rows (get_force idx (v, hc)) = filter (fun r => dense idx r hc =? v) (zrange (nrows idx)).
+Proof. exact (get_force_filter idx v hc). Qed.
+Print Assumptions C06_get_force_filter.
+
+Theorem C06_get_force_sorted idx k :
+  WF idx -> sincr (opt_rows (get_force idx k)).
+Proof. exact (get_force_sorted idx k). Qed.
+Print Assumptions C06_get_force_sorted.
+
+Theorem C06_get_force_none idx k :
+  WF idx -> get_force idx k <> Some [].
+Proof. exact (get_force_none idx k). Qed.
+Print Assumptions C06_get_force_none.
+
+Theorem C06_items_force_spec idx v hc r :
+  WF idx ->
+  ((exists rows, In ((v, hc), rows) (items_force idx) /\ In r rows) <-> in_range idx r hc /\ dense idx r hc = v).
+Proof. exact (items_force_spec idx v hc r). Qed.
+Print Assumptions C06_items_force_spec.
+
+Theorem C06_items_force_keys idx :
+  WF idx -> NoDup (keys (items_force idx)).
+Proof. exact (items_force_keys idx). Qed.
+Print Assumptions C06_items_force_keys.
+
+Theorem C06_items_force_sorted idx k rows :
+  WF idx -> In (k, rows) (items_force idx) -> sincr rows.
+Proof. exact (items_force_sorted idx k rows). Qed.
+Print Assumptions C06_items_force_sorted.
+
+Theorem C06_to_dict_force_items idx :
+  WF idx -> to_dict_force idx = items_force idx.
+Proof. exact (to_dict_force_items idx). Qed.
+Print Assumptions C06_to_dict_force_items.
+
+Theorem C06_to_dict_force_spec idx v hc r :
+  WF idx ->
+  ((exists rows, In ((v, hc), rows) (to_dict_force idx) /\ In r rows) <-> in_range idx r hc /\ dense idx r hc = v).
+Proof. exact (to_dict_force_spec idx v hc r). Qed.
+Print Assumptions C06_to_dict_force_spec.
+
+Theorem C06_to_dict_force_get idx k :
+  WF idx -> in_hshape (snd k) (hshape idx) ->
+  rows_at k (to_dict_force idx) = opt_rows (get_force idx k).
+Proof. exact (to_dict_force_get idx k). Qed.
+Print Assumptions C06_to_dict_force_get.
+
+Theorem C06_common_rowids_dense idx r hc :
+  WF idx ->
+  (In r (common_rowids idx hc) <-> 0 <= r < nrows idx /\ dense idx r hc = common idx).
+Proof. exact (common_rowids_dense idx r hc). Qed.
+Print Assumptions C06_common_rowids_dense.
+
+Theorem C06_common_rowids_sincr idx hc :
+  sincr (common_rowids idx hc).
+Proof. exact (common_rowids_sincr idx hc). Qed.
+Print Assumptions C06_common_rowids_sincr.
+
+(* ---- every step, every history ---- *)
+Theorem C06_step_total idx o :
+  WF idx -> args_ok idx o -> exists idx', step idx o = Ok idx'.
+Proof. exact (step_total idx o). Qed.
+Print Assumptions C06_step_total.
+
+Theorem C06_step_refines idx d o idx' :
+  WF idx -> args_ok idx o -> refines idx d -> step idx o = Ok idx' ->
+  refines idx' (spec_step (common idx) d o).
+Proof. exact (step_refines idx d o idx'). Qed.
+Print Assumptions C06_step_refines.
+
+Theorem C06_column_stack_refines idxs ds nc out :
+  cs_args_ok idxs -> Forall2 refines idxs ds ->
+  column_stack idxs nc = Ok out -> refines out (spec_column_stack ds).
+Proof. exact (column_stack_refines idxs ds nc out). Qed.
+Print Assumptions C06_column_stack_refines.
+
+Theorem C06_history_refines  :
+  forall ops s0 d0, WF s0 -> refines s0 d0 -> hist_ok s0 ops ->
+  exists s, run s0 ops = Ok s /\ WF s /\ refines s (spec_run s0 d0 ops).
+Proof. exact (history_refines). Qed.
+Print Assumptions C06_history_refines.
+
+Theorem C06_history_dense ops s0 :
+  WF s0 -> hist_ok s0 ops ->
+  exists s, run s0 ops = Ok s /\ WF s /\ refines s (spec_run s0 (darr_of s0) ops).
+Proof. exact (history_dense ops s0). Qed.
+Print Assumptions C06_history_dense.
+
+Theorem C06_history_refines_fold ops s0 d0 :
+  WF s0 -> refines s0 d0 -> hist_ok s0 ops ->
+  forallb common_free ops = true ->
+  exists s, run s0 ops = Ok s /\ WF s /\ refines s (fold_left (spec_step 0) ops d0).
+Proof. exact (history_refines_fold ops s0 d0). Qed.
+Print Assumptions C06_history_refines_fold.
+
+(* ---- non-vacuity: concrete well-formed indexes and arguments satisfy every hypothesis (evaluated through
+   the boolean twins wf_b / *_ok_b, sound by wf_b_spec / *_ok_b_sound), and a 17-step history that visits
+   every kind of operation runs, stays inside the hypotheses at every step ([hist_ok]) and ends where NumPy ends ---- *)
+Definition ex2 : iindex :=
+  {| entries := [((1, [0]), [0; 2]); ((2, [0]), [1]); ((1, [1]), [4]); ((7, [2]), [0; 1; 2; 3])];
+     common := 0; nrows := 5; hshape := [3] |}.
+Definition ex2b : iindex := {| entries := [((5, [1]), [0; 1])]; common := 7; nrows := 2; hshape := [3] |}.
+Definition ex1 : iindex := {| entries := [((3, []), [0; 3; 5])]; common := 1; nrows := 6; hshape := [] |}.
+Definition ex_hist : list op :=
+  [OAppend ex2b; OUpdate [((0, [0]), [0]); ((9, [1]), [1; 6])]; OUnion [((1, [0]), [2; 5]); ((4, [2]), [1])];
+   OInter [((1, [0]), [2; 5]); ((0, [0]), [0; 3; 4]); ((9, [1]), [1; 6]); ((4, [2]), [1]); ((0, [1]), [0; 2; 3]);
+           ((2, [0]), [1]); ((5, [1]), [5])];
+   ODiff [((9, [1]), [6])]; OSetIf (2, [0]) [1; 6];
+   OFiltered [true; false; true; true; true; true; true]; OShift 4; OCopy; OGetForce (7, [2]); OSlices1d;
+   OReindexed (Some [(0, 2); (9, 2)]) true; OReindexed None false; OShiftAuto;
+   OColumnStack [ex1] [ex1] (Some 1);
+   OSliced [OList [2; 1; 3]];
+   OCollapsed [3; -1; 2; 1] (Some [(0, 2)])].
+
+Example C06_nonvacuous_args :
+  WF ex2 /\ WF ex2b /\ WF ex1 /\
+  append_ok ex2 ex2b /\ filtered_ok ex2 [true; false; true; true; false] /\
+  upd_ok ex2 [((0, [0]), [0]); ((9, [1]), [1; 4])] /\
+  other_ok ex2 [((1, [0]), [2; 3]); ((4, [1]), [0])] /\
+  set_if_ok ex2 (1, [0]) [0; 3] /\
+  orders_ok [OList [2; 0]] (hshape ex2) /\ orders_ok [OInt 1] (hshape ex2) /\
+  collapse_ok ex2 [7; -1; 1] /\
+  cs_args_ok [ex2; ex2] /\ cs_args_ok [ex1; ex1].
+Proof.
+  split; [apply wf_b_spec; vm_compute; reflexivity|].
+  split; [apply wf_b_spec; vm_compute; reflexivity|].
+  split; [apply wf_b_spec; vm_compute; reflexivity|].
+  split; [split; [reflexivity|vm_compute; discriminate]|].
+  split; [reflexivity|].
+  split; [apply upd_ok_b_sound; vm_compute; reflexivity|].
+  split; [apply other_ok_b_sound; vm_compute; reflexivity|].
+  split; [apply set_if_ok_b_sound; vm_compute; reflexivity|].
+  split; [apply orders_ok_b_sound; vm_compute; reflexivity|].
+  split; [apply orders_ok_b_sound; vm_compute; reflexivity|].
+  split; [apply HistoryB.collapse_ok_b_sound; vm_compute; reflexivity|].
+  split; apply cs_args_ok_b_sound; vm_compute; reflexivity.
+Qed.
+Print Assumptions C06_nonvacuous_args.
+
+Example C06_nonvacuous_history : WF ex2 /\ hist_ok ex2 ex_hist /\ length ex_hist = 17%nat.
+Proof.
+  split; [apply wf_b_spec; vm_compute; reflexivity|].
+  split; [apply HistoryB.hist_ok_b_sound; vm_compute; reflexivity|reflexivity].
+Qed.
+Print Assumptions C06_nonvacuous_history.
+
+Example C06_history_run :
+  let expected := [[1]; [2]; [1]; [1]; [2]; [1]] in
+  match run ex2 ex_hist with
+  | Ok s => dense_rows s = expected /\ wf_b s = true /\ nrows s = 6 /\ hshape s = []
+  | Err _ => False
+  end /\
+  (let d := spec_run ex2 (darr_of ex2) ex_hist in
+   dn d = 6 /\ dhs d = [] /\ map (fun r => map (df d r) (all_hcs (dhs d))) (zrange (dn d)) = expected) /\
+  match run ex2 (firstn 15 ex_hist) with
+  | Ok s => dense_rows s = [[3; 1; 1; 7; 3]; [1; 0; 1; 7; 1]; [1; 1; 1; 7; 1]; [3; 1; 7; 7; 3]; [1; 0; 2; 7; 1]; [3; 1; 7; 7; 3]]
+  | Err _ => False
+  end.
+Proof. vm_compute. repeat split; reflexivity. Qed.
+Print Assumptions C06_history_run.
